@@ -2,7 +2,6 @@
 //! idempotent, order-free, element-less inputs are neutral, malformed inputs give Err).
 
 use super::hist::*;
-use crate::canon;
 use crate::ctx::{fnv, Ctx, Violation};
 use crate::oracle::{check_exact, Binding, Order};
 use crate::subject::{self, Preset};
@@ -129,8 +128,8 @@ fn judge_transition(t: &Transition, table: Option<&OrderTable>) -> Vec<Violation
             }
             // element-less inputs are neutral
             if ev.root().is_none() {
-                if canon::k_full(t.pred) != canon::k_full(succ) {
-                    out.push(mk("elementless-changes-tree", "an element-less input changed the tree".into()));
+                if ps.sorted() != ss.sorted() {
+                    out.push(mk("elementless-changes-tree", "an element-less input changed the schema of the tree".into()));
                 }
                 for sorted in [false, true] {
                     if subject::render(t.pred, Preset::QuickXml, sorted) != subject::render(succ, Preset::QuickXml, sorted) {
